@@ -18,6 +18,7 @@ import (
 	"image/gif"
 	"image/png"
 	"io"
+	"io/fs"
 	"os/exec"
 	"strings"
 	"time"
@@ -159,7 +160,7 @@ func buildGzip(ms []gzMember) *fcase {
 		}
 		base := file.Len()
 		c.truth = append(c.truth, "M", kv("flg", flg), kv("name", opt(m.name)), kv("comment", opt(m.comment)), kv("extra", ex),
-			kv("mtime", m.mtime), kv("xfl", xfl), kv("os", m.os), kv("hlen", hlen), kv("clen", clen), kv("data", hx(m.data)))
+			kv("mtime", m.mtime), kv("mdesc", hxs(time.Unix(int64(m.mtime), 0).UTC().Format(time.RFC3339))), kv("xfl", xfl), kv("os", m.os), kv("hlen", hlen), kv("clen", clen), kv("data", hx(m.data)))
 		// regions: compressed stream (z) or the verbatim payload of a single stored block (d); trailer crc (d)
 		if m.level == gzip.NoCompression && len(m.data) > 0 && len(m.data) <= 65535 &&
 			bytes.Equal(b.Bytes()[hlen+5:hlen+5+len(m.data)], m.data) {
@@ -238,6 +239,7 @@ func buildTar(ms []tarMember, format tar.Format) (*fcase, error) {
 		}
 		c.truth = append(c.truth, "F", kv("name", hxs(h.Name)), kv("type", int(h.Typeflag)), kv("link", opt(h.Linkname)),
 			kv("mode", h.Mode), kv("uid", h.Uid), kv("gid", h.Gid), kv("mtime", h.ModTime.Unix()),
+			kv("mdesc", hxs(h.ModTime.UTC().Format(time.RFC3339))), kv("devmajor", h.Devmajor), kv("devminor", h.Devminor),
 			kv("uname", opt(h.Uname)), kv("gname", opt(h.Gname)), kv("data", hx(m.data)))
 	}
 	if err := w.Close(); err != nil {
@@ -284,6 +286,12 @@ func genTar(r *hlib.Rand, i int) *fcase {
 				m.hdr.Typeflag = tar.TypeSymlink
 				m.hdr.Linkname = genName(r, []int{0, 2}[r.Intn(2)])
 				pk = 0
+			case 2:
+				if r.Bool() { // device node: devmajor / devminor carry values
+					m.hdr.Typeflag = []byte{tar.TypeChar, tar.TypeBlock}[r.Intn(2)]
+					m.hdr.Devmajor, m.hdr.Devminor = int64(r.Intn(4096)), int64(r.Intn(1<<20))
+					pk = 0
+				}
 			}
 			m.data = genPayload(r, pk)
 			ms = append(ms, m)
@@ -307,6 +315,22 @@ type zipMember struct {
 	comment string
 	level   int
 	data    []byte
+	mod     time.Time // zero: no modification time given
+	mode    uint32    // 0: no unix mode given
+}
+
+// MS-DOS date/time words of t (UTC), computed here independently of the writer: seconds are halved (odd seconds round down)
+func dosWords(t time.Time) (fdate, ftime int) {
+	return t.Day() + int(t.Month())<<5 + (t.Year()-1980)<<9, t.Second()/2 + t.Minute()<<5 + t.Hour()<<11
+}
+
+var zipDates = []time.Time{
+	time.Date(1980, 1, 1, 0, 0, 0, 0, time.UTC), time.Date(2107, 12, 31, 23, 59, 59, 0, time.UTC),
+	time.Date(2043, 12, 31, 23, 59, 58, 0, time.UTC), time.Date(2044, 1, 1, 0, 0, 0, 0, time.UTC),
+	time.Date(2050, 6, 15, 12, 30, 41, 0, time.UTC), time.Date(2000, 2, 29, 1, 2, 3, 0, time.UTC),
+	time.Date(2100, 2, 28, 23, 0, 1, 0, time.UTC), time.Date(2099, 12, 31, 0, 0, 0, 0, time.UTC),
+	time.Date(2038, 1, 19, 3, 14, 8, 0, time.UTC), time.Date(2106, 2, 7, 6, 28, 16, 0, time.UTC),
+	time.Date(1999, 11, 30, 16, 31, 30, 0, time.UTC), time.Date(2021, 10, 1, 7, 59, 59, 0, time.UTC),
 }
 
 func buildZip(ms []zipMember, comment string) *fcase {
@@ -317,14 +341,30 @@ func buildZip(ms []zipMember, comment string) *fcase {
 		level := m.level
 		w.RegisterCompressor(zip.Deflate, func(out io.Writer) (io.WriteCloser, error) { return flate.NewWriter(out, level) })
 		fh := &zip.FileHeader{Name: m.name, Method: m.method, Comment: m.comment}
+		if m.mode != 0 {
+			fh.SetMode(fs.FileMode(m.mode))
+		}
+		fdate, ftime, xt, hl := 0, 0, "~", 30+len(m.name)
+		guess := time.Date(1980, 0, 0, 0, 0, 0, 0, time.UTC) // what date/time words 0/0 denote
+		if !m.mod.IsZero() {
+			fdate, ftime = dosWords(m.mod)
+			guess = m.mod.Truncate(2 * time.Second)
+			if m.dd {
+				fh.Modified = m.mod // the writer derives the words and adds an extended timestamp (9 bytes of extra)
+				xt = fmt.Sprint(uint32(m.mod.Unix()))
+				hl += 9
+			} else {
+				fh.ModifiedDate, fh.ModifiedTime = uint16(fdate), uint16(ftime)
+			}
+		}
 		off := 0
 		if m.dd {
 			fw, err := w.CreateHeader(fh)
 			if err != nil {
 				panic(err)
 			}
-			w.Flush() // the descriptor of the previous member and this local header (30 + name bytes) are out now
-			off = b.Len() - 30 - len(m.name)
+			w.Flush() // the descriptor of the previous member and this local header (30 + name + extra bytes) are out now
+			off = b.Len() - hl
 			fw.Write(m.data)
 		} else {
 			var comp bytes.Buffer
@@ -343,7 +383,7 @@ func buildZip(ms []zipMember, comment string) *fcase {
 				panic(err)
 			}
 			w.Flush()
-			off = b.Len() - 30 - len(m.name)
+			off = b.Len() - hl
 			fw.Write(comp.Bytes())
 		}
 		w.Flush()
@@ -352,10 +392,11 @@ func buildZip(ms []zipMember, comment string) *fcase {
 			dd = 1
 		}
 		c.truth = append(c.truth, "F", kv("name", hxs(m.name)), kv("method", m.method), kv("dd", dd), kv("fcomment", opt(m.comment)),
-			kv("off", off), kv("data", hx(m.data)))
+			kv("off", off), kv("fdate", fdate), kv("ftime", ftime), kv("guess", guess.Unix()), kv("gdesc", hxs(guess.Format("2006-01-02T15:04:05"))),
+			kv("xt", xt), kv("ext", fh.ExternalAttrs), kv("utf8", fh.Flags>>11&1), kv("data", hx(m.data)))
 		// payload of a stored member without descriptor: covered by crc32_uncompressed, which fq never verifies
 		if m.method == zip.Store && !m.dd && len(m.data) > 0 {
-			st := off + 30 + len(m.name)
+			st := off + hl
 			if bytes.Equal(b.Bytes()[st:st+len(m.data)], m.data) {
 				c.regions = append(c.regions, region{st, st + len(m.data), 'u'})
 			}
@@ -387,8 +428,26 @@ func genZip(r *hlib.Rand, i int) *fcase {
 			pk = 5 + r.Intn(2)
 		}
 		m.data = genPayload(r, pk)
+		// modification time over the whole MS-DOS range 1980..2107: boundary dates, random dates, or none
+		dk := (i + 2*k) % 4
+		switch dk {
+		case 0:
+			m.mod = zipDates[(i/4+k)%len(zipDates)]
+		case 1, 2:
+			m.mod = time.Date(1980+r.Intn(128), time.Month(1+r.Intn(12)), 1+r.Intn(28), r.Intn(24), r.Intn(60), r.Intn(60), 0, time.UTC)
+			if dk == 2 { // last day of a month
+				m.mod = time.Date(m.mod.Year(), m.mod.Month()+1, 0, m.mod.Hour(), m.mod.Minute(), m.mod.Second(), 0, time.UTC)
+			}
+		}
+		if r.Intn(3) == 0 {
+			m.mode = []uint32{0o644, 0o755, 0o400, 0o777}[r.Intn(4)]
+		}
 		ms = append(ms, m)
-		cls += fmt.Sprintf("/m%d.d%v.p%d", m.method, m.dd, pk)
+		yc := 0
+		if !m.mod.IsZero() {
+			yc = 1 + (m.mod.Year()-1980)/32
+		}
+		cls += fmt.Sprintf("/m%d.d%v.p%d.y%d", m.method, m.dd, pk, yc)
 	}
 	comment := ""
 	if i%3 == 1 {
@@ -475,7 +534,7 @@ func makeImage(r *hlib.Rand, mode, w, h int) (image.Image, int, int) {
 	}
 }
 
-func buildPng(r *hlib.Rand, mode, w, h int, level png.CompressionLevel, texts []pngText) *fcase {
+func buildPng(r *hlib.Rand, mode, w, h int, level png.CompressionLevel, texts []pngText, phys []uint32) *fcase {
 	im, bd, ct := makeImage(r, mode, w, h)
 	var b bytes.Buffer
 	enc := png.Encoder{CompressionLevel: level}
@@ -484,8 +543,26 @@ func buildPng(r *hlib.Rand, mode, w, h int, level png.CompressionLevel, texts []
 	}
 	file := b.Bytes()
 	c := &fcase{format: "png", truth: []string{kv("w", w), kv("h", h), kv("bd", bd), kv("ct", ct), kv("ntext", len(texts))}}
-	// hand-made text chunks are inserted after IHDR (8 + 25 bytes)
+	palTruth := "~"
+	if pi, ok := im.(*image.Paletted); ok {
+		var pb []byte
+		for _, cl := range pi.Palette {
+			cr, cg, cb, _ := cl.RGBA()
+			pb = append(pb, byte(cr>>8), byte(cg>>8), byte(cb>>8))
+		}
+		palTruth = hx(pb)
+	}
+	c.truth = append(c.truth, kv("pal", palTruth))
+	// hand-made pHYs / text chunks are inserted after IHDR (8 + 25 bytes)
 	var ins bytes.Buffer
+	if phys != nil {
+		var pd bytes.Buffer
+		binary.Write(&pd, binary.BigEndian, phys[0])
+		binary.Write(&pd, binary.BigEndian, phys[1])
+		pd.WriteByte(byte(phys[2]))
+		ins.Write(pngChunk("pHYs", pd.Bytes()))
+		c.truth = append(c.truth, kv("phys", fmt.Sprintf("%d:%d:%d", phys[0], phys[1], phys[2])))
+	}
 	type zspan struct{ start, end int }
 	var zs []zspan
 	for _, t := range texts {
@@ -541,7 +618,14 @@ func genPng(r *hlib.Rand, i int) *fcase {
 		}
 		texts = append(texts, t)
 	}
-	c := buildPng(r, mode, sz[0], sz[1], level, texts)
+	var phys []uint32
+	if i%4 == 1 {
+		phys = []uint32{uint32(r.U64()), uint32(r.U64()), uint32(r.Intn(2))}
+		if i%8 == 1 {
+			phys = []uint32{2835, 2835, 1}
+		}
+	}
+	c := buildPng(r, mode, sz[0], sz[1], level, texts, phys)
 	c.class = fmt.Sprintf("png.m%d.%dx%d.l%d.t%d", mode, sz[0], sz[1], level, len(texts))
 	return c
 }
@@ -559,6 +643,7 @@ func genGif(r *hlib.Rand, i int) *fcase {
 	if (i/3)%2 == 1 { // one global colour table instead of a local table per image
 		gct = 1
 		g.Config = image.Config{ColorModel: pal, Width: sz[0], Height: sz[1]}
+		g.BackgroundIndex = byte(r.Intn(ncol))
 	}
 	lbits := 1
 	for 1<<uint(lbits) < ncol {
@@ -582,14 +667,14 @@ func genGif(r *hlib.Rand, i int) *fcase {
 		}
 		g.Image = append(g.Image, im)
 		g.Delay = append(g.Delay, r.Intn(50))
-		g.Disposal = append(g.Disposal, 0)
+		g.Disposal = append(g.Disposal, byte(r.Intn(4)))
 		pix = append(pix, append([]byte{}, im.Pix...))
 	}
 	var b bytes.Buffer
 	if err := gif.EncodeAll(&b, g); err != nil {
 		panic(err)
 	}
-	c := &fcase{format: "gif", file: b.Bytes(), truth: []string{kv("w", sz[0]), kv("h", sz[1]), kv("ncol", ncol), kv("n", nframes), kv("gct", gct), kv("lbits", lbits)}}
+	c := &fcase{format: "gif", file: b.Bytes(), truth: []string{kv("w", sz[0]), kv("h", sz[1]), kv("ncol", ncol), kv("n", nframes), kv("gct", gct), kv("lbits", lbits), kv("bg", g.BackgroundIndex), kv("loop", g.LoopCount)}}
 	var palb []byte
 	for _, cl := range pal {
 		cr, cg, cb, _ := cl.RGBA()
@@ -598,7 +683,7 @@ func genGif(r *hlib.Rand, i int) *fcase {
 	c.truth = append(c.truth, kv("pal", hx(palb)))
 	for f, im := range g.Image {
 		bd := im.Bounds()
-		c.truth = append(c.truth, "I", kv("x", bd.Min.X), kv("y", bd.Min.Y), kv("w", bd.Dx()), kv("h", bd.Dy()), kv("delay", g.Delay[f]), kv("pix", hx(pix[f])))
+		c.truth = append(c.truth, "I", kv("x", bd.Min.X), kv("y", bd.Min.Y), kv("w", bd.Dx()), kv("h", bd.Dy()), kv("delay", g.Delay[f]), kv("disp", g.Disposal[f]), kv("pix", hx(pix[f])))
 	}
 	c.class = fmt.Sprintf("gif.f%d.c%d.%dx%d.l%d.g%d", nframes, ncol, sz[0], sz[1], g.LoopCount, gct)
 	return c
@@ -678,9 +763,13 @@ func genWav(r *hlib.Rand, i int) *fcase {
 		truth = append(truth, kv("fact", nsamp))
 	}
 	body.Write(riffChunk("data", samples))
+	junk := "~"
 	if i%6 == 5 {
-		body.Write(riffChunk("junk", r.Bytes(r.Range(0, 9))))
+		jb := r.Bytes(r.Range(0, 9))
+		body.Write(riffChunk("junk", jb))
+		junk = hx(jb)
 	}
+	truth = append(truth, kv("junk", junk))
 	truth = append(truth, kv("info", opt(info)), kv("samples", hx(samples)))
 	file := riffChunk("RIFF", body.Bytes())
 	return &fcase{format: "wav", file: file, truth: truth,
